@@ -147,8 +147,8 @@ Proof. split; vm_compute; reflexivity. Qed.
    results of this very tick (successful iff [c5 = c1] finished by itself, C04_kill_justified).
    Hence the timeline of Part 1 (C05_run_success: success exactly at tick [total]) is the timeline of a
    container in a run for as long as it is neither suspended nor killed; the composition over a whole run
-   (the [total]-th simulator tick after the creation reports the success) is NOT stated here as one theorem
-   for arbitrary schedulers: it is proved for uncontended naive runs in C06_uncontended_latency_sim. *)
+   (the [total]-th simulator tick after the creation reports the success) is Part 4 below, for arbitrary
+   schedulers (for uncontended naive runs see also C06_uncontended_latency_sim). *)
 From Eudoxia Require Import Model.Pool Model.Executor Model.Sched Model.Simulator Proofs.OomFacts
   Proofs.PriorityPoolRunFacts Proofs.SimCorollaryFacts.
 
@@ -181,4 +181,276 @@ Example C05_sim_witness :
 Proof.
   split; [exact SimCorExamples.k_reach1|]. split; [exact SimCorExamples.k_tick1|].
   split; [exact SimCorExamples.k_active1|]. exact SimCorExamples.k_facts1.
+Qed.
+
+(* Part 4: the timeline of a container over a WHOLE simulation run (Proofs/SimTimelineFacts.v); this is the
+   composition that Part 3 left open, for every shipped scheduler, every workload, every pool configuration,
+   any rounding.
+
+   (i)   [cstep C c]: the container that [ctick] returns does not depend on the world or on the pool counter
+         (they only decide whether the tick raises); [csteps C n c] is n steps. The isolated run of Part 1,
+         whenever it succeeds, ends in [csteps].
+   (ii)  the pure timeline of a fresh container: as Part 1 (a), (b) but with no world and no hypothesis on
+         dependencies.
+   (iii) one simulator tick, exhaustively ([tick_outcome]): the container finished and is reported / is above
+         its own allocation and is reported failed / is within its allocation and the pool-level loop of the
+         killer took it / runs on (and then no result of the tick carries its id).
+   (iv)  every running container of every state of every run is [csteps C (c_ticks c)] of its own fresh
+         container: its state is a function of its assignment and its age.
+   (v)   many ticks: the dichotomy over [sim_reach], and the state/outcome in tick m along [sim_run].
+   (vi)  the predicted ticks: success in exactly tick t0 + total - 1, own-limit OOM in exactly tick
+         t0 + off k + j (= t0 + T - 1 for the T of C05_oom), and nothing about the container is reported
+         earlier, provided no suspension command names it and it is not reported as failed before (i.e. the
+         pool-level loop of the killer does not take it). *)
+From Eudoxia Require Import Proofs.SimTimelineFacts.
+
+(* (i) *)
+Theorem C05_ctick_world_independent : forall C w cons c w1 cons1 c1,
+  ctick C w cons c = Ok (w1, cons1, c1) -> c1 = cstep C c.
+Proof. exact SimTimelineFacts.ctick_cstep. Qed.
+Print Assumptions C05_ctick_world_independent.
+
+Theorem C05_isolated_run_is_csteps : forall C n w cons c w' cons' c',
+  cticks C n w cons c = Ok (w', cons', c') -> c' = csteps C n c.
+Proof. exact SimTimelineFacts.cticks_csteps. Qed.
+Print Assumptions C05_isolated_run_is_csteps.
+
+(* (ii) success: strictly between 0 and [total] ticks the container is unfinished and within its allocation;
+   from [total] on it is the completed container, no error, memory 0, [total] ticks on its counter *)
+Theorem C05_steps_success : forall C id ops cpu ram pr,
+  (forall k, k < length ops -> scr C ops cpu k <> []) ->
+  all_fit C ops cpu ram -> 0 < length ops ->
+  (forall t, 0 < t < total C ops cpu ->
+     c_completed (csteps C t (new_container id ops cpu ram pr)) = false /\
+     (c_mem (csteps C t (new_container id ops cpu ram pr)) <= ram)%Q) /\
+  (forall n, csteps C (total C ops cpu + n) (new_container id ops cpu ram pr)
+             = mk id ops cpu ram pr (length ops) None false 0%Q false true false (Z.of_nat (total C ops cpu))).
+Proof. exact SimTimelineFacts.csteps_success. Qed.
+Print Assumptions C05_steps_success.
+
+(* (ii) own-limit OOM: tick j of operator k is the first demand above the allocation *)
+Theorem C05_steps_oom : forall C id ops cpu ram pr,
+  (forall k, k < length ops -> scr C ops cpu k <> []) ->
+  forall k j, k < length ops -> j < L C ops cpu k -> (ram < nth j (scr C ops cpu k) 0)%Q ->
+  (forall k' j', before C ops cpu k j k' j' -> (nth j' (scr C ops cpu k') 0 <= ram)%Q) ->
+  let T := off C ops cpu k + S j in
+  let c0 := new_container id ops cpu ram pr in
+  (forall t, 0 < t < T -> c_completed (csteps C t c0) = false /\ (c_mem (csteps C t c0) <= ram)%Q) /\
+  (forall n, c_completed (csteps C (T + n) c0) = false /\ c_frozen (csteps C (T + n) c0) = true /\
+             c_mem (csteps C (T + n) c0) = nth j (scr C ops cpu k) 0%Q /\ c_opidx (csteps C (T + n) c0) = k /\
+             c_ticks (csteps C (T + n) c0) = Z.of_nat (T + n)).
+Proof. exact SimTimelineFacts.csteps_oom_time. Qed.
+Print Assumptions C05_steps_oom.
+
+(* (iii) a running container that no command of the tick suspends (su_cid AND su_pool) *)
+Theorem C05_sim_tick_outcome : forall C a np cpu ram t s newp s' lg i p c,
+  sim_reach C a 0%Z (init_sim C np cpu ram) t s ->
+  sim_tick C a t s newp = Ok (s', lg) ->
+  nth_error (e_pools (sm_exec s)) i = Some p -> In c (p_active p) ->
+  (forall su, In su (tl_susp lg) -> su_cid su = c_id c -> su_pool su <> Z.of_nat i) ->
+  (exists wa ca wb cb, ctick C wa ca c = Ok (wb, cb, cstep C c)) /\
+  let c1 := cstep C c in
+  (c_completed c1 = true /\ In (result_of i c1) (tl_results lg))
+  \/ (c_completed c1 = false /\ (c_ram c1 < c_mem c1)%Q /\ In (result_of i (dead c1)) (tl_results lg))
+  \/ (c_completed c1 = false /\ (c_mem c1 <= c_ram c1)%Q /\ In (result_of i (dead c1)) (tl_results lg))
+  \/ (c_completed c1 = false /\ (c_mem c1 <= c_ram c1)%Q /\
+      (exists p', nth_error (e_pools (sm_exec s')) i = Some p' /\ In c1 (p_active p')) /\
+      forall r, In r (tl_results lg) -> r_cid r <> c_id c1).
+Proof. exact SimTimelineFacts.sim_tick_active_outcome. Qed.
+Print Assumptions C05_sim_tick_outcome.
+
+(* (iii) a container created by an assignment of the tick: fresh id, first [ctick] in the same tick *)
+Theorem C05_sim_created : forall C a np cpu ram t s newp s' lg i x,
+  sim_reach C a 0%Z (init_sim C np cpu ram) t s ->
+  sim_tick C a t s newp = Ok (s', lg) ->
+  In x (tl_asgs lg) -> a_pool x = Z.of_nat i ->
+  exists id, e_next (sm_exec s) <= id /\
+    let c0 := new_container id (a_ops x) (a_cpu x) (a_ram x) (a_prio x) in
+    (exists wa ca wb cb, ctick C wa ca c0 = Ok (wb, cb, cstep C c0)) /\ tick_outcome s' lg i (cstep C c0).
+Proof. exact SimTimelineFacts.sim_tick_created_outcome. Qed.
+Print Assumptions C05_sim_created.
+
+(* (iv) *)
+Theorem C05_sim_age : forall C a np cpu ram t s,
+  sim_reach C a 0%Z (init_sim C np cpu ram) t s ->
+  forall p, In p (e_pools (sm_exec s)) -> forall c, In c (p_active p) ->
+  c_completed c = false /\ (0 <= c_ticks c)%Z /\
+  c = csteps C (Z.to_nat (c_ticks c)) (new_container (c_id c) (c_ops c) (c_cpu c) (c_ram c) (c_prio c)).
+Proof. exact SimTimelineFacts.sim_reach_aged. Qed.
+Print Assumptions C05_sim_age.
+
+(* (v) the dichotomy: t' - t ticks after a state in which [c] runs in pool [i] it still runs there, in state
+   [csteps C (t' - t) c], or there is a first tick t + m in which it left the running list -- until then it ran
+   ([csteps C m c] before that tick) and that tick suspended it, finished it, or killed it ([leaves]) *)
+Theorem C05_sim_timeline : forall C a np cpu ram t s t' s' i p c,
+  sim_reach C a 0%Z (init_sim C np cpu ram) t s ->
+  sim_reach C a t s t' s' ->
+  nth_error (e_pools (sm_exec s)) i = Some p -> In c (p_active p) ->
+  (exists p', nth_error (e_pools (sm_exec s')) i = Some p' /\ In (csteps C (Z.to_nat (t' - t)) c) (p_active p'))
+  \/
+  (exists m sa newp sb lg pa,
+     (Z.of_nat m < t' - t)%Z /\
+     sim_reach C a t s (t + Z.of_nat m)%Z sa /\ sim_tick C a (t + Z.of_nat m)%Z sa newp = Ok (sb, lg) /\
+     sim_reach C a (t + Z.of_nat m + 1)%Z sb t' s' /\
+     nth_error (e_pools (sm_exec sa)) i = Some pa /\ In (csteps C m c) (p_active pa) /\
+     let c1 := cstep C (csteps C m c) in
+     ((exists su, In su (tl_susp lg) /\ su_cid su = c_id (csteps C m c) /\ su_pool su = Z.of_nat i)
+      \/ (c_completed c1 = true /\ In (result_of i c1) (tl_results lg))
+      \/ (c_completed c1 = false /\ (c_ram c1 < c_mem c1)%Q /\ In (result_of i (dead c1)) (tl_results lg))
+      \/ (c_completed c1 = false /\ (c_mem c1 <= c_ram c1)%Q /\ In (result_of i (dead c1)) (tl_results lg)))).
+Proof. exact SimTimelineFacts.sim_timeline_reach. Qed.
+Print Assumptions C05_sim_timeline.
+
+(* (v) along [sim_run] (logs index the ticks of the continuation from [s]) *)
+Theorem C05_sim_run_timeline : forall C a np cpu ram arrivals t s sf logs oe i p c,
+  sim_reach C a 0%Z (init_sim C np cpu ram) t s ->
+  sim_run C a t s arrivals = (sf, logs, oe) ->
+  nth_error (e_pools (sm_exec s)) i = Some p -> In c (p_active p) ->
+  forall m lg, nth_error logs m = Some lg ->
+    (forall m' lg', m' < m -> nth_error logs m' = Some lg' ->
+       forall r, In r (tl_results lg') -> r_cid r <> c_id c) ->
+    (forall m' lg', m' <= m -> nth_error logs m' = Some lg' ->
+       forall su, In su (tl_susp lg') -> su_cid su = c_id c -> su_pool su <> Z.of_nat i) ->
+    exists sa newp sb pa,
+      sim_reach C a t s (t + Z.of_nat m)%Z sa /\ sim_tick C a (t + Z.of_nat m)%Z sa newp = Ok (sb, lg) /\
+      nth_error (e_pools (sm_exec sa)) i = Some pa /\ In (csteps C m c) (p_active pa) /\
+      tick_outcome sb lg i (csteps C (S m) c).
+Proof. exact SimTimelineFacts.sim_run_timeline. Qed.
+Print Assumptions C05_sim_run_timeline.
+
+(* (vi) SUCCESS, for any running container of any state of a run. age = c_ticks c; the success is in the results
+   of tick number total - age - 1 of the continuation and nothing about the container is reported earlier *)
+Theorem C05_sim_success_tick : forall C a np cpu ram arrivals t s sf logs oe i p c,
+  sim_reach C a 0%Z (init_sim C np cpu ram) t s ->
+  sim_run C a t s arrivals = (sf, logs, oe) ->
+  nth_error (e_pools (sm_exec s)) i = Some p -> In c (p_active p) ->
+  let ops := c_ops c in
+  let n := total C ops (c_cpu c) in
+  let age := Z.to_nat (c_ticks c) in
+  (forall k, k < length ops -> scr C ops (c_cpu c) k <> []) ->
+  all_fit C ops (c_cpu c) (c_ram c) ->
+  forall lgn, nth_error logs (n - age - 1) = Some lgn ->
+  (forall m lg, m <= n - age - 1 -> nth_error logs m = Some lg ->
+     forall su, In su (tl_susp lg) -> su_cid su = c_id c -> su_pool su <> Z.of_nat i) ->
+  (forall m lg, m < n - age - 1 -> nth_error logs m = Some lg ->
+     forall r, In r (tl_results lg) -> r_cid r = c_id c -> r_err r = false) ->
+  age < n /\
+  In {| r_cid := c_id c; r_ops := ops; r_cpu := c_cpu c; r_ram := c_ram c; r_prio := c_prio c;
+        r_pool := i; r_err := false |} (tl_results lgn) /\
+  (forall m lg, m < n - age - 1 -> nth_error logs m = Some lg ->
+     forall r, In r (tl_results lg) -> r_cid r <> c_id c).
+Proof. exact SimTimelineFacts.sim_success_tick. Qed.
+Print Assumptions C05_sim_success_tick.
+
+(* (vi) OWN-LIMIT OOM: T = off k + S j is the tick count of C05_oom; the failure is in the results of tick
+   number T - age - 1 of the continuation and nothing about the container is reported earlier *)
+Theorem C05_sim_oom_tick : forall C a np cpu ram arrivals t s sf logs oe i p c k j,
+  sim_reach C a 0%Z (init_sim C np cpu ram) t s ->
+  sim_run C a t s arrivals = (sf, logs, oe) ->
+  nth_error (e_pools (sm_exec s)) i = Some p -> In c (p_active p) ->
+  let ops := c_ops c in
+  let T := off C ops (c_cpu c) k + S j in
+  let age := Z.to_nat (c_ticks c) in
+  (forall k, k < length ops -> scr C ops (c_cpu c) k <> []) ->
+  k < length ops -> j < L C ops (c_cpu c) k ->
+  (c_ram c < nth j (scr C ops (c_cpu c) k) 0)%Q ->
+  (forall k' j', before C ops (c_cpu c) k j k' j' -> (nth j' (scr C ops (c_cpu c) k') 0 <= c_ram c)%Q) ->
+  forall lgn, nth_error logs (T - age - 1) = Some lgn ->
+  (forall m lg, m <= T - age - 1 -> nth_error logs m = Some lg ->
+     forall su, In su (tl_susp lg) -> su_cid su = c_id c -> su_pool su <> Z.of_nat i) ->
+  (forall m lg, m < T - age - 1 -> nth_error logs m = Some lg ->
+     forall r, In r (tl_results lg) -> r_cid r = c_id c -> r_err r = false) ->
+  age < T /\
+  In {| r_cid := c_id c; r_ops := ops; r_cpu := c_cpu c; r_ram := c_ram c; r_prio := c_prio c;
+        r_pool := i; r_err := true |} (tl_results lgn) /\
+  (forall m lg, m < T - age - 1 -> nth_error logs m = Some lg ->
+     forall r, In r (tl_results lg) -> r_cid r <> c_id c).
+Proof. exact SimTimelineFacts.sim_oom_tick. Qed.
+Print Assumptions C05_sim_oom_tick.
+
+(* (vi) from the assignment. [logs] are the logs of the continuation of a run from tick t0 on; its first tick
+   carries the assignment [x] for pool [i]. The container of [x] gets a fresh id and its first [ctick] in tick t0
+   (one of the four outcomes); its success is in the results of tick t0 + total - 1 (index total - 1 of [logs]),
+   and no earlier tick reports anything about it *)
+Theorem C05_sim_created_success_tick : forall C a np cpu ram arrivals t0 s sf logs oe lg0 x i,
+  sim_reach C a 0%Z (init_sim C np cpu ram) t0 s ->
+  sim_run C a t0 s arrivals = (sf, logs, oe) ->
+  nth_error logs 0 = Some lg0 -> In x (tl_asgs lg0) -> a_pool x = Z.of_nat i ->
+  let ops := a_ops x in
+  let n := total C ops (a_cpu x) in
+  (forall k, k < length ops -> scr C ops (a_cpu x) k <> []) ->
+  all_fit C ops (a_cpu x) (a_ram x) ->
+  exists id s1 newp,
+    e_next (sm_exec s) <= id /\ sim_tick C a t0 s newp = Ok (s1, lg0) /\
+    tick_outcome s1 lg0 i (cstep C (new_container id ops (a_cpu x) (a_ram x) (a_prio x))) /\
+    0 < n /\
+    forall lgn, nth_error logs (n - 1) = Some lgn ->
+      (forall m lg, 0 < m <= n - 1 -> nth_error logs m = Some lg ->
+         forall su, In su (tl_susp lg) -> su_cid su = id -> su_pool su <> Z.of_nat i) ->
+      (forall m lg, m < n - 1 -> nth_error logs m = Some lg ->
+         forall r, In r (tl_results lg) -> r_cid r = id -> r_err r = false) ->
+      In {| r_cid := id; r_ops := ops; r_cpu := a_cpu x; r_ram := a_ram x; r_prio := a_prio x;
+            r_pool := i; r_err := false |} (tl_results lgn) /\
+      (forall m lg, m < n - 1 -> nth_error logs m = Some lg ->
+         forall r, In r (tl_results lg) -> r_cid r <> id).
+Proof. exact SimTimelineFacts.sim_created_success_tick. Qed.
+Print Assumptions C05_sim_created_success_tick.
+
+(* non-vacuity (SimTimelineExamples: naive, one pool of 4 CPUs / 8 GB, arrivals [[0]; [1]; []; ...]).
+   Container 1 (operators [1; 2], scripts [1;1;1] and [1;100] GB, 8 GB, created in tick 2) runs in the state x3
+   reached at tick 3, one tick old; the first demand above 8 GB is tick j = 1 of operator k = 1, T = 3 + 2 = 5.
+   The hypotheses of C05_sim_oom_tick hold and the failure is in the results of continuation tick 5 - 1 - 1 = 3,
+   i.e. simulator tick 6 = 2 + 5 - 1. *)
+Example C05_sim_oom_witness :
+  sim_reach SimTimelineExamples.xC ANaive 0%Z (init_sim SimTimelineExamples.xC 1 4%Z 8%Q) 3%Z SimTimelineExamples.x3 /\
+  sim_run SimTimelineExamples.xC ANaive 3%Z SimTimelineExamples.x3 SimTimelineExamples.x_rest
+    = (SimTimelineExamples.xf, SimTimelineExamples.xlogs, None) /\
+  nth_error (e_pools (sm_exec SimTimelineExamples.x3)) 0 = Some SimTimelineExamples.xp3 /\
+  In SimTimelineExamples.xc1 (p_active SimTimelineExamples.xp3) /\
+  (c_id SimTimelineExamples.xc1, c_ops SimTimelineExamples.xc1, c_cpu SimTimelineExamples.xc1,
+   Qred (c_ram SimTimelineExamples.xc1), c_ticks SimTimelineExamples.xc1) = (1, [1; 2], 4%Z, 8%Q, 1%Z) /\
+  map (fun k => scr SimTimelineExamples.xC (c_ops SimTimelineExamples.xc1) (c_cpu SimTimelineExamples.xc1) k) [0; 1]
+    = [[1%Q; 1%Q; 1%Q]; [1%Q; 100%Q]] /\
+  map (fun lg => (tl_susp lg, map (fun r => (r_cid r, r_err r)) (tl_results lg))) SimTimelineExamples.xlogs
+    = [([], []); ([], []); ([], []); ([], [(1, true)]); ([], []); ([], []); ([], [])] /\
+  exists lgn, nth_error SimTimelineExamples.xlogs 3 = Some lgn /\
+    In {| r_cid := c_id SimTimelineExamples.xc1; r_ops := c_ops SimTimelineExamples.xc1;
+          r_cpu := c_cpu SimTimelineExamples.xc1; r_ram := c_ram SimTimelineExamples.xc1;
+          r_prio := c_prio SimTimelineExamples.xc1; r_pool := 0; r_err := true |} (tl_results lgn) /\
+    (forall m lg, m < 3 -> nth_error SimTimelineExamples.xlogs m = Some lg ->
+       forall r, In r (tl_results lg) -> r_cid r <> c_id SimTimelineExamples.xc1).
+Proof.
+  split; [exact SimTimelineExamples.x_reach3|]. split; [exact SimTimelineExamples.x_cont_run|].
+  split; [exact SimTimelineExamples.x_pool3|]. split; [exact SimTimelineExamples.x_active3|].
+  split; [exact (proj1 SimTimelineExamples.x_c1_facts)|].
+  split; [exact (proj1 (proj2 SimTimelineExamples.x_c1_facts))|].
+  split; [exact SimTimelineExamples.x_cont_facts|]. exact SimTimelineExamples.x_oom_applies.
+Qed.
+
+(* the same run from its start: the assignment of tick 0 ([0], 4 CPUs, 8 GB, pool 0; total = 2) satisfies the
+   hypotheses of C05_sim_created_success_tick and the success is in the results of tick 0 + 2 - 1 = 1 *)
+Example C05_sim_success_witness :
+  sim_run SimTimelineExamples.xC ANaive 0%Z (init_sim SimTimelineExamples.xC 1 4%Z 8%Q) SimTimelineExamples.x_arrivals
+    = (SimTimelineExamples.x_s, SimTimelineExamples.x_logs, None) /\
+  nth_error SimTimelineExamples.x_logs 0 = Some SimTimelineExamples.x_lg0 /\
+  In SimTimelineExamples.x_asg0 (tl_asgs SimTimelineExamples.x_lg0) /\
+  (a_ops SimTimelineExamples.x_asg0, a_cpu SimTimelineExamples.x_asg0, Qred (a_ram SimTimelineExamples.x_asg0),
+   a_pool SimTimelineExamples.x_asg0) = ([0], 4%Z, 8%Q, 0%Z) /\
+  total SimTimelineExamples.xC (a_ops SimTimelineExamples.x_asg0) (a_cpu SimTimelineExamples.x_asg0) = 2 /\
+  all_fit SimTimelineExamples.xC (a_ops SimTimelineExamples.x_asg0) (a_cpu SimTimelineExamples.x_asg0)
+          (a_ram SimTimelineExamples.x_asg0) /\
+  map (fun lg => (tl_susp lg, map (fun r => (r_cid r, r_ops r, r_err r)) (tl_results lg)))
+      (firstn 2 SimTimelineExamples.x_logs) = [([], []); ([], [(0, [0], false)])] /\
+  exists id lgn, nth_error SimTimelineExamples.x_logs 1 = Some lgn /\
+    In {| r_cid := id; r_ops := a_ops SimTimelineExamples.x_asg0; r_cpu := a_cpu SimTimelineExamples.x_asg0;
+          r_ram := a_ram SimTimelineExamples.x_asg0; r_prio := a_prio SimTimelineExamples.x_asg0;
+          r_pool := 0; r_err := false |} (tl_results lgn).
+Proof.
+  split; [exact SimTimelineExamples.x_run|]. split; [exact SimTimelineExamples.x_log0|].
+  split; [exact SimTimelineExamples.x_asg0_in|].
+  split; [exact (proj1 SimTimelineExamples.x_asg0_facts)|].
+  split; [exact (proj1 (proj2 SimTimelineExamples.x_asg0_facts))|].
+  split; [exact SimTimelineExamples.x_fit0|].
+  split; [exact (proj2 (proj2 SimTimelineExamples.x_asg0_facts))|].
+  exact SimTimelineExamples.x_success_applies.
 Qed.
